@@ -533,7 +533,11 @@ pub fn short_input_plan(index: u64, max_len: usize) -> Option<Plan> {
 
 // ===================================================================== text arm
 
-const NASTY: &[&str] = &["g", "z", "G", "Z", "_", "-", "+", " ", "é", "€", "𝟘", "\0", "x", "X", "o", "b", "/", ",", "=", "\n", "f", "F", "9", "0"];
+// incl. non-ASCII characters whose code point modulo 256 is an ASCII digit, letter or '_'
+// (U+0131 -> '1', U+0661 -> 'a', U+0141 -> 'A', U+015F -> '_', U+0130 -> '0', U+0178 -> 'x', U+FF11 fullwidth '1')
+const NASTY: &[&str] = &[
+    "g", "z", "G", "Z", "_", "-", "+", " ", "é", "€", "𝟘", "\0", "x", "X", "o", "b", "/", ",", "=", "\n", "f", "F", "9", "0", "ı", "١", "Ł", "ş", "İ", "Ÿ", "１", "ａ",
+];
 
 fn to_radix(v: &Num, radix: u32) -> String {
     num::to_biguint(v).to_str_radix(radix)
@@ -671,7 +675,7 @@ fn text_faults(rng: &mut Rng, s: &mut String, notes: &mut Vec<String>) {
     for _ in 0..*rng.pick(&[0usize, 1, 1, 1, 2, 2, 3]) {
         let chars: Vec<char> = s.chars().collect();
         let n = chars.len();
-        match rng.below(8) {
+        match rng.below(9) {
             0 => {
                 let k = rng.below(n + 1);
                 *s = chars[..k].iter().collect();
@@ -709,6 +713,18 @@ fn text_faults(rng: &mut Rng, s: &mut String, notes: &mut Vec<String>) {
                 let pre = rng.pick(&["0x", "0X", "0o", "0O", "0b", "0B", "00", "0_", "x0", "0"]);
                 *s = pre.to_string() + &chars[2..].iter().collect::<String>();
                 notes.push("T-PREFIX".into());
+            }
+            7 => {
+                // a character from another plane / block whose low byte is an ASCII digit, letter or '_'
+                let low = *rng.pick(&[b'0', b'1', b'7', b'9', b'a', b'f', b'A', b'F', b'x', b'z', b'_', b'b', b'o']);
+                let hi = rng.range(1, 0x10f) as u32;
+                let cp = (hi << 8) | u32::from(low);
+                if let Some(c) = char::from_u32(cp) {
+                    let k = rng.below(n + 1);
+                    let sub = rng.chance(1, 2) && k < n;
+                    *s = chars[..k].iter().collect::<String>() + &c.to_string() + &chars[k + usize::from(sub)..].iter().collect::<String>();
+                    notes.push("T-WIDECHAR".into());
+                }
             }
             _ => {
                 let k = rng.below(n + 1);
